@@ -514,6 +514,12 @@ class CWorld:
                 "len": len(g),
                 "values": len(list(g.values())),
             }
+            try:
+                rev = sorted(reversed(g))
+            except Exception:
+                rev = None  # not reversible on this driver: nothing exposed
+            if rev is not None and rev != exp:
+                raise Violation("C08", "listing-exposes-bookkeeping", f"[{dv.kind}] reversed({p}) yields {rev}, user children: {exp}", shape="reversed")
             vis = []
             g.visit(vis.append)
             sub = sorted(q[len(p.rstrip("/")) + 1 :] for q in want if q != p and (q.startswith(p.rstrip("/") + "/")))
@@ -1094,6 +1100,8 @@ class ContainerEngine:
                 op = {"op": "pack", "base": g.choice(sh.groups()), "target": dgen.key() + f"_f{counter[0]}" if g.random() < 0.85 else (dgen.existing(sh) or "x").lstrip("/") or "x", "len": ln, "content": content, "seed": counter[0]}
                 if g.random() < 0.08:
                     op.update(len=1, content="marker")
+                if g.random() < 0.2:
+                    op["via_symlink"] = True
                 if "/" not in op["target"]:
                     sh.create(T.Shadow.join(op["base"], op["target"]), "d")
                 ops.append(op)
@@ -1207,6 +1215,14 @@ def op_pack(w, op):
     fpath = os.path.join(w.scratch, "files", f"f{int(op['seed']) % 3}.bin")
     with open(fpath, "wb") as f:
         f.write(data)
+    if op.get("via_symlink"):
+        # the source path is a symbolic link to the file
+        lpath = os.path.join(w.scratch, "files", f"l{int(op['seed']) % 3}.lnk")
+        if os.path.lexists(lpath):
+            os.unlink(lpath)
+        os.symlink(os.path.basename(fpath), lpath)
+        fpath = lpath
+        w.probe("pack_source_is_symlink")
     marker = data == b"\x7f"
     if marker and "/" in target.strip("/"):
         # keep the realignment after the marker probe simple: no intermediate groups
@@ -1265,7 +1281,7 @@ def op_pack(w, op):
 
 # ====================================================================== reserved paths (C08)
 
-RESERVED_METHODS = ["__getitem__", "get", "__contains__", "create_group", "require_group", "create_dataset", "require_dataset", "__setitem__", "__delitem__", "move_src", "move_dst", "copy_src", "copy_dst", "copy_dst_group_name", "pack_target"]
+RESERVED_METHODS = ["get_getclass", "get_getlink", "get_default", "__getitem__", "get", "__contains__", "create_group", "require_group", "create_dataset", "require_dataset", "__setitem__", "__delitem__", "move_src", "move_dst", "copy_src", "copy_dst", "copy_dst_group_name", "pack_target"]
 RESERVED_VARIANTS = ["rel", "nested", "nested_deep", "abs_toc", "abs_toc_deep", "existing_meta", "existing_obj", "abs_meta", "toc_links", "rel_meta_of_child"]
 KNOWN_PROTOCOL = {"__getitem__", "__setitem__", "__delitem__", "__iter__", "__len__", "__contains__", "keys", "values", "items", "get", "visititems", "visit", "create_dataset", "require_dataset", "create_group", "require_group", "move", "copy", "name", "attrs", "parent", "file"}
 
@@ -1329,6 +1345,14 @@ def op_reserved(w, op):
                 result = g[rp]
             elif method == "get":
                 result = g.get(rp)
+            elif method == "get_getclass":
+                result = g.get(rp, getclass=True)
+            elif method == "get_getlink":
+                result = g.get(rp, getclass=True, getlink=True)
+            elif method == "get_default":
+                result = g.get(rp, "fallback")
+                if result == "fallback":
+                    result = None  # answered 'not there' without revealing anything... still not a rejection
             elif method == "__contains__":
                 result = rp in g
             elif method == "create_group":
@@ -1399,7 +1423,7 @@ def gen_reserved(g, sh, ms):
 # ====================================================================== restricted actors (C15)
 
 FLAG_SETS = [["read_only"], ["skel_only"], ["local_only"], ["read_only", "local_only"], ["read_only", "skel_only"], ["skel_only", "local_only"], ["read_only", "skel_only", "local_only"]]
-NAV_PRIMS = ["getitem", "get", "child", "values", "items", "visititems", "parent", "query", "restrict", "restrict_self", "root_abs", "require_group_existing", "iter"]
+NAV_PRIMS = ["getitem_deep", "getitem", "get", "child", "values", "items", "visititems", "parent", "query", "restrict", "restrict_self", "root_abs", "require_group_existing", "iter"]
 MUTATING = ["d_write_direct", "g_setitem", "g_create_group", "g_require_group", "g_create_dataset", "g_require_dataset", "g_delitem", "g_move", "g_copy", "d_setitem", "d_resize", "a_setitem", "a_delitem", "a_update", "a_pop", "a_clear", "a_setdefault", "a_create", "a_modify", "m_setitem", "m_delitem", "unrestrict"]
 READING = ["d_getitem", "d_getitem_slice", "d_get", "a_getitem", "a_get", "a_values", "a_items", "m_getitem", "m_get", "m_values", "m_items", "d_astype", "d_len_fields", "d_asstr", "d_iter", "d_read_direct", "d_nparray", "a_iter_getitem", "a_dict"]
 UPWARD = ["parent", "file", "abs_lookup", "abs_get", "abs_contains", "metador_query_root", "parent_parent"]
@@ -1628,6 +1652,12 @@ def op_nav(w, op):
                     elif prim == "require_group_existing":
                         grp = [n for n in names if is_node(node[n]) and hasattr(node[n], "keys")]
                         res = node.require_group(grp[arg % len(grp)]) if grp and "read_only" not in src_flags else None
+            elif prim == "getitem_deep":
+                # a descendant two or more levels down, reached in one lookup
+                deep = []
+                node.visititems(lambda n, x: deep.append(n) if n.count("/") >= 1 else None)
+                deep.sort()
+                res = node[deep[arg % len(deep)]] if deep else None
             elif prim == "parent":
                 res = node.parent
             elif prim == "query":
@@ -1961,7 +1991,11 @@ class ActorGen:
             # itself further, then look around and try everything once
             self.plan = []
             if g.random() < 0.6:
-                self.plan.append({"op": "nav", "actor": actor, "h": -1, "prim": g.choice(["restrict", "restrict_self", "getitem", "visititems"]), "arg": g.randrange(50)})
+                first = g.choice(["restrict", "restrict_self", "getitem", "visititems", "getitem_deep", "query"])
+                self.plan.append({"op": "nav", "actor": actor, "h": -1, "prim": first, "arg": g.randrange(50)})
+                if first in ("getitem", "visititems", "getitem_deep", "query") and g.random() < 0.6:
+                    # restrict the node just obtained further, then look around from it
+                    self.plan.append({"op": "nav", "actor": actor, "h": -1, "prim": "restrict_self", "arg": g.randrange(50)})
                 self.plan.append({"op": "attempt", "actor": actor, "h": -1, "kind": g.choice(["closure", "sweep_M", "sweep_R", "sweep_U"]), "arg": g.randrange(50)})
             p = g.choice(sh.all()) if g.random() < 0.8 else "/"
             return {"op": "grant", "actor": actor, "path": p, "flags": g.choice(FLAG_SETS + [[]]), "container": g.random() < 0.5}
